@@ -62,7 +62,7 @@ theorem flagged_calls {s : Simp} (hs : SimpSound s) {o : Oracle} (ho : OracleSou
       (∀ r, ce.e.out ≠ .stuck r) ∧ ce.e.tag = .normal) :
     ∃ ce ∈ (runC s o cfg env codes this fuel).ends, Sat I ce.e.st.path ∧ ce.e.tag = .normal ∧
       (∃ h0, ce.e.out = .halt h0 ∧ haltWith h0 (ce.e.data.map (·.eval I)) = h) ∧
-      WRelM I (Modelled codes this) w w' (stoOf ce.stores) := by
+      WRelM I (Modelled codes this) w w' (stoOf ce.stores) (evalLogs I ce.logs) := by
   rcases C02.complete_calls hs ho cfg env codes this fuel p w hmem hdep hcodes hcb hz I hI f0 hR0 hthis hd0 n w' h hex
     with ⟨ce, hm, hsat, hc⟩ | hb' | hd' | hf'
   · obtain ⟨hns, htag⟩ := herr ce hm hsat
